@@ -241,8 +241,11 @@ func main() {
 		reps = 15
 	}
 	n := 0
-	for r := 0; r < reps; r++ {
+	for r := 0; r < reps && len(res.Findings) == 0; r++ {
 		for si, ws := range sets {
+			if len(res.Findings) > 0 {
+				break // one failing transfer is enough (each further one may cost the full horizon)
+			}
 			v := runOnce(ws)
 			n++
 			if len(v) > 0 {
